@@ -161,6 +161,16 @@ def lxml_obs(root):
     return pro, epi
 
 
+def lxml_tree(e, top=True):
+    """an lxml element as nested tuples, prefixes left out (expanded names only)"""
+    tail = "" if top else (e.tail or "")
+    if e.tag is etree.Comment:
+        return ("comment", e.text or "", tail)
+    if e.tag is etree.ProcessingInstruction:
+        return ("pi", e.target, e.text or "", tail)
+    return ("tag", e.tag, tuple(sorted(e.attrib.items())), e.text or "", tuple(lxml_tree(c, False) for c in e), tail)
+
+
 def same_codec(a, b):
     try:
         return codecs.lookup(a).name == codecs.lookup(b).name
@@ -211,25 +221,29 @@ def check_serialize(ctx, cases):
             except Exception as e:  # noqa: BLE001
                 ctx.fail("Document.write raised %s: %s" % (type(e).__name__, e), case)
         # str(document)
-        try:
-            impl.delb.DefaultStringOptions.format_options = fo_obj(fo)
-            impl.delb.DefaultStringOptions.newline = nl
-            r["str"] = str(d)
-        except Exception as e:  # noqa: BLE001
-            ctx.fail("str(document) raised %s: %s" % (type(e).__name__, e), case)
-            r["str"] = None
-        finally:
-            impl.delb.DefaultStringOptions.reset_defaults()
+        r["str"] = None
+        if case.get("also_str", True):
+            try:
+                impl.delb.DefaultStringOptions.format_options = fo_obj(fo)
+                impl.delb.DefaultStringOptions.newline = nl
+                r["str"] = str(d)
+            except Exception as e:  # noqa: BLE001
+                ctx.fail("str(document) raised %s: %s" % (type(e).__name__, e), case)
+            finally:
+                impl.delb.DefaultStringOptions.reset_defaults()
         D = cdoc(obs[0], DUMMY, obs[2])
         terms.append("obs_serialize %s %s %s %s %s %s" % (kind_of(fo), cstr(enc), cstr(linesep), NEWLINES[nl], cstr(chunk), D))
-        terms.append("obs_serialize %s %s %s %s %s %s" % (kind_of(fo), cstr("utf-8"), cstr("\n"), NEWLINES[nl], cstr(chunk), D))
+        r["ti"] = len(terms) - 1
+        if r["str"] is not None:
+            terms.append("obs_serialize %s %s %s %s %s %s" % (kind_of(fo), cstr("utf-8"), cstr("\n"), NEWLINES[nl], cstr(chunk), D))
         runs.append(r)
     vals = ctx.coq_eval("c12_ser", REQ, terms, chunk=150)
     for i, r in enumerate(runs):
         case, obs, d = r["case"], r["obs"], r["doc"]
         fo, enc, nl = case["fo"], case["enc"], case["nl"]
         fo = tuple(fo) if fo is not None else None
-        mv, ms = vals[2 * i], vals[2 * i + 1]
+        mv = vals[r["ti"]]
+        ms = vals[r["ti"] + 1] if r["str"] is not None else []
         shape = "%d+%d" % (len(obs[0]), len(obs[2]))
         ctx.count(1, "serialize/%s/%s/%s/%s" % (kind_of(fo), enc.lower(), repr(nl), case["route"]))
         if (obs[0] or obs[2]) and (enc.lower() != "utf-8" or nl is not None or fo is not None):
@@ -335,10 +349,9 @@ def check_written(ctx, case, obs, d, data, enc, fo, via):
         if not same_codec(declared or "", enc):
             ctx.fail("lxml reports encoding %r for a document saved with %r" % (declared, enc), case)
     if fo is None:
-        a = etree.tostring(lroot, method="c14n")
-        b = etree.tostring(d.root._etree_obj, method="c14n")
+        a, b = lxml_tree(lroot), lxml_tree(d.root._etree_obj)
         if a != b:
-            ctx.fail("root tree read by lxml differs (c14n)", dict(case, before=b[:300].decode(), after=a[:300].decode()))
+            ctx.fail("root tree read by lxml differs", dict(case, before=repr(b)[:400], after=repr(a)[:400]))
 
 
 # --------------------------------------------------------------------------------------------------
@@ -577,13 +590,13 @@ def run(ctx, args):
                 check_strip(ctx, [{"pro": [], "root": case["src"], "epi": []}])
             return ctx.finish("replay of " + args.replay)
         quick = ctx.tier == "quick"
-        n_docs = 110 if quick else 700
-        per_doc = 5 if quick else 12
+        n_docs = 100 if quick else 700
+        per_doc = 4 if quick else 12
         docs = [gen_doc_case(ctx.rng, i) for i in range(n_docs)]
         ser_cases = []
         for i, dc in enumerate(docs):
             for j, (enc, nl, fo) in enumerate(configs(ctx.rng, per_doc, not quick)):
-                ser_cases.append(dict(dc, enc=enc, nl=nl, fo=fo, also_write=(i + j) % 3 == 0))
+                ser_cases.append(dict(dc, enc=enc, nl=nl, fo=fo, also_write=(i + j) % 3 == 0, also_str=(i + j) % 2 == 0 or not quick))
         check_serialize(ctx, ser_cases)
         streams = []
         for _ in range(260 if quick else 2500):
